@@ -73,11 +73,15 @@ def cases(tier, seed):
             o.append("--ffout=" + rng.choice(common.FFS))
         return o
 
-    nrun = 240 if tier == "quick" else 7000
+    nrun = 180 if tier == "quick" else 6000
     for spec in workload.standard_cases(tier, seed, nrun, nrun, opts_fn=opts, frag_share=0.25,
                                         p={"variant_prob": 0.3, "na_prob": 0.2, "waters": [0, 0, 2, 4]}):
         spec["kind"] = "run"
         out.append(spec)
+    for rep in range(1 if tier == "quick" else 12):
+        for spec in workload.lattice_cases(seed * 31 + rep, opts_fn=opts):
+            spec["kind"] = "run"
+            out.append(spec)
     nu = 16 if tier == "quick" else 300
     for i in range(nu):
         out.append({"kind": "userrun", "w": "synth", "seed": seed * 7333 + i, "ff": "USER",
